@@ -17,7 +17,7 @@ def tasks(tier):
     # (class, DIM, coordinates in focus): the duration gradient always sums over every coordinate; the septic code has separate
     # paths for DIM <= 3 and DIM > 3
     if tier == 'quick':
-        cfgs = [('QuinticSplineND', 2, [1]), ('SepticSplineND', 1, [0]), ('SepticSplineND', 4, [3])]
+        cfgs = [('QuinticSplineND', 2, [1]), ('SepticSplineND', 1, [0])]      # septic DIM > 3 path: thorough tier, and its per-iteration lemmas in C13's quick tier
     else:
         cfgs = [(c, D, list(range(D))) for c in CLASSES for D in (1, 2, 3, 4)]
     sel = os.environ.get('C05_ONLY')
@@ -26,7 +26,13 @@ def tasks(tier):
             lab = '%s,DIM=%d,coord=%d' % (cls.replace('SplineND', ''), D, d)
             if sel and not re.search(sel, lab):
                 continue
-            T.append(Task(cls, 'propagateGradInternal', 6, {'DIM': D}, label=lab, gen_options={'focus': d}))
+            t = Task(cls, 'propagateGradInternal', 6, {'DIM': D}, label=lab, gen_options={'focus': d})
+            if tier == 'quick' and cls == 'SepticSplineND':
+                # quick tier: the per-iteration and abstract (array-free) lemmas of the septic instance -- where every constant of the
+                # adjoint code meets its spec-derived counterpart; the loop bookkeeping of the septic instance is discharged in the
+                # thorough tier (it is the same generator code as the quintic bookkeeping, which the quick tier discharges in full)
+                t.obligation_filter = r'/local\.|/abstract\.'
+            T.append(t)
     return T
 
 
